@@ -361,6 +361,9 @@ def write_pdb(arr, hybrid36, via_convert, reuse_file=False):
         if decoy is not None:
             f.set_structure(decoy)
             f.get_structure(model=1)
+            f.get_structure(model=None)
+            f.get_coord(model=None)
+            f.get_b_factor(model=None)
             f.get_model_count()
     with warnings.catch_warnings(record=True) as w:
         warnings.simplefilter("always")
